@@ -1398,7 +1398,7 @@ def run(ctx: core.Ctx):
     other_rej = {}
     n_desc = n_toy = n_toy_vals = n_shape = n_operand_checks = 0
     sql_crashes = {}
-    toy_skipped = {'not-toy-evaluable': 0, 'toy-error': 0, 'bigint-division': 0}
+    toy_skipped = {'not-toy-evaluable': 0, 'toy-error': 0, 'bigint-division': 0, 'complex-result(runtime error in PostgreSQL)': 0}
     kinds_hist = {}
     cons_hist = {}
     q_info = []
@@ -1512,6 +1512,21 @@ def run(ctx: core.Ctx):
             toy_skipped['toy-error'] += 1
             continue
         tm['toy'] += _t.time() - _t0
+
+        def _has_complex(v):
+            if isinstance(v, complex):
+                return True
+            if isinstance(v, (list, tuple, set, frozenset)):
+                return any(_has_complex(x) for x in v)
+            if isinstance(v, dict):
+                return any(_has_complex(x) for x in v.values())
+            return False
+        if any(_has_complex(v) for v in vals):
+            # Python's `**` returns a complex number for a negative base and a fractional exponent;
+            # PostgreSQL raises "a negative number raised to a non-integer power yields a complex result":
+            # the query has no value there, so there is nothing to compare with the inferred type
+            toy_skipped['complex-result(runtime error in PostgreSQL)'] += 1
+            continue
         n_toy += 1
         n_toy_vals += len(vals)
         for v in vals:
